@@ -108,6 +108,13 @@ type recOpt struct {
 	A uint8
 	P *rec3 `rlp:"nil"`
 }
+type tMutA struct {
+	N uint
+	B tMutB
+}
+type tMutB struct {
+	As []tMutA
+}
 type recOptS struct {
 	A uint8
 	S *[2]byte  `rlp:"nil"`
@@ -393,7 +400,7 @@ func TestVerifRLP(t *testing.T) {
 		}
 		type sTail struct {
 			A uint16
-			T []uint8 `rlp:"tail"`
+			T []uint16 `rlp:"tail"`
 		}
 		type sIgn struct {
 			A uint32
@@ -410,13 +417,21 @@ func TestVerifRLP(t *testing.T) {
 			B [2]uint16
 			C []s1
 		}
+		// types that contain themselves through a slice, an array of pointers or a pointer (the type cache is filled while it is read)
+		type tSelf struct {
+			Val  uint
+			Kids []tSelf
+		}
 		var vals []interface{}
+		vals = append(vals, tSelf{1, []tSelf{{2, []tSelf{}}, {3, []tSelf{{4, []tSelf{}}}}}}, tSelf{0, []tSelf{}},
+			tMutA{7, tMutB{[]tMutA{{8, tMutB{[]tMutA{}}}}}}, []tSelf{{1, []tSelf{}}}, [2][]tSelf{{{5, []tSelf{}}}, {}})
 		for _, b := range []byte{0x00, 0x01, 0x7f, 0x80, 0xff} {
 			vals = append(vals, [1]byte{b}, s1{[1]byte{b}, 5}, s1{[1]byte{b}, 0}, [2]byte{b, 0}, [2]byte{0, b}, s2{[2]byte{b, b}, [1]byte{b}, [0]byte{}, b},
 				sIgn{A: uint32(b), B: [1]byte{b}}, sPtr{P: &[1]byte{b}, Q: new(uint64), R: &s1{[1]byte{b}, uint(b)}},
 				sArr{A: [3][1]byte{{b}, {0}, {b}}, B: [2]uint16{uint16(b), 0}, C: []s1{{[1]byte{b}, 1}, {[1]byte{0}, 0}}},
-				[]byte{b}, string([]byte{b}), uint8(b), uint16(b)<<8, uint64(b)<<56, b != 0, sTail{uint16(b), []uint8{b, 0, b}}, sTail{0, nil},
-				recOpt{A: b}, recOptS{A: b, S: &[2]byte{b, b}}, recOptS{A: b, U: new(uint16)}, rec3{A: uint64(b), B: []byte{b}, C: big.NewInt(int64(b)), T: []uint16{uint16(b)}})
+				[]byte{b}, string([]byte{b}), uint8(b), uint16(b)<<8, uint64(b)<<56, b != 0, sTail{uint16(b), []uint16{uint16(b), 0, uint16(b) << 8}}, sTail{0, []uint16{}},
+				recOpt{A: b}, recOptS{A: b, S: &[2]byte{b, b}}, recOptS{A: b, U: func() *uint16 { u := uint16(b) + 1; return &u }()}, // (a pointer to zero and nil share one encoding under the nil tag)
+				rec3{A: uint64(b), B: []byte{b}, C: big.NewInt(int64(b)), T: []uint16{uint16(b)}})
 		}
 		for _, v := range vals {
 			ev := map[string]interface{}{"e": "tval", "type": fmt.Sprintf("%T", v), "bytes": []int{}, "err": false, "roundtrip": false, "generic": false, "term": termOf([]byte{})}
